@@ -112,7 +112,120 @@ def run_scs_mdl(c):
     return out
 
 
-RUNNERS = {"scs": run_scs, "scs-mdl": run_scs_mdl}
+# ----------------------------------------------------------------------------- C18
+_JIT = {}
+
+
+def _fr(x):
+    from fractions import Fraction as F
+    return float(F(x[0], x[1]))
+
+
+def run_argmax(c):
+    """mode: eager | jit | fused (array computed inside the jitted function as u + beta * v)."""
+    from functools import partial
+
+    import jax
+    import jax.numpy as jnp
+    import numpy as np
+
+    from lcm.argmax import argmax
+
+    shape = tuple(c["shape"])
+    axes = tuple(c["axes"])
+    a = np.array([_fr(x) for x in c["a"]], dtype=np.float32).reshape(shape)
+    where = np.array(c["where"], dtype=bool).reshape(shape) if c["has_where"] else None
+    kw = {"axis": axes if len(axes) > 1 or c.get("axis_tuple", True) else axes[0]}
+    if where is not None:
+        kw["initial"] = -jnp.inf
+    mode = c.get("mode", "eager")
+    out = dict(c)
+    if mode == "eager":
+        idx, mx = argmax(jnp.asarray(a), where=None if where is None else jnp.asarray(where), **kw)
+    elif mode == "jit":
+        key = ("argmax", shape, axes, where is not None)
+        if key not in _JIT:
+            _JIT[key] = jax.jit(lambda arr, wh: argmax(arr, where=wh, **kw)) if where is not None else jax.jit(
+                lambda arr: argmax(arr, **kw))
+        idx, mx = _JIT[key](jnp.asarray(a), jnp.asarray(where)) if where is not None else _JIT[key](jnp.asarray(a))
+    else:
+        u = np.array(c["u"], dtype=np.float32).reshape(shape)
+        v = np.array(c["v"], dtype=np.float32).reshape(shape)
+        beta = np.float32(c["beta"])
+        key = ("fused", shape, axes, where is not None)
+        if key not in _JIT:
+            if where is not None:
+                _JIT[key] = jax.jit(lambda u_, v_, b_, wh: argmax(u_ + b_ * v_, where=wh, **kw))
+            else:
+                _JIT[key] = jax.jit(lambda u_, v_, b_: argmax(u_ + b_ * v_, **kw))
+        args = (jnp.asarray(u), jnp.asarray(v), beta) + ((jnp.asarray(where),) if where is not None else ())
+        idx, mx = _JIT[key](*args)
+        # the array as an eager float32 computation of the same expression (what "the array" means to a user)
+        a = np.asarray(jnp.asarray(u) + beta * jnp.asarray(v))
+        out["a"] = [MDL.enc(x) for x in a.ravel()]
+    out["obs"] = {"idx": [int(x) for x in np.asarray(idx).ravel()], "max": [MDL.enc(x) for x in np.asarray(mx).ravel()],
+                  "shape": [int(x) for x in np.asarray(idx).shape]}
+    if not c["has_where"]:
+        out["where"] = [True] * len(c["a"])
+    out.pop("u", None)
+    out.pop("v", None)
+    return out
+
+
+def run_segargmax(c):
+    import jax
+    import jax.numpy as jnp
+    import numpy as np
+
+    from lcm.argmax import segment_argmax
+
+    shape = tuple(c["shape"])
+    data = np.array([_fr(x) for x in c["data"]], dtype=np.float32).reshape(shape)
+    seg = np.repeat(np.arange(len(c["lens"])), c["lens"])
+    f = segment_argmax
+    if c.get("mode") == "jit":
+        f = jax.jit(segment_argmax, static_argnames=["num_segments"])
+    idx, mx = f(jnp.asarray(data), segment_ids=jnp.asarray(seg), num_segments=len(c["lens"]))
+    out = dict(c)
+    out["obs"] = {"idx": [int(x) for x in np.asarray(idx).ravel()], "max": [MDL.enc(x) for x in np.asarray(mx).ravel()]}
+    return out
+
+
+def run_reduce(c):
+    import jax
+    import jax.numpy as jnp
+    import numpy as np
+    import pandas as pd
+
+    from lcm.discrete_problem import get_solve_discrete_problem
+    from lcm.typing import ShockType
+
+    rows = []
+    if c["has_rows"]:
+        rows.append(("s0", dict(is_sparse=True, is_choice=False, is_continuous=False)))
+        rows.append(("a0", dict(is_sparse=True, is_choice=True, is_continuous=False)))
+    for i, (ch, cont) in enumerate(zip(c["is_choice"], c["is_cont"], strict=True)):
+        rows.append((f"v{i}", dict(is_sparse=False, is_choice=bool(ch), is_continuous=bool(cont))))
+    rows.append(("ccont", dict(is_sparse=False, is_choice=True, is_continuous=True)))   # continuous choice: no axis
+    vi = pd.DataFrame([r[1] for r in rows], index=[r[0] for r in rows])
+    vi["is_state"] = ~vi["is_choice"]
+    vi["is_dense"] = ~vi["is_sparse"]
+    vi["is_discrete"] = ~vi["is_continuous"]
+    vi["is_auxiliary"] = False
+    vi["is_stochastic"] = False
+    seg = None
+    if c["has_rows"]:
+        seg = {"segment_ids": jnp.asarray(np.repeat(np.arange(len(c["lens"])), c["lens"])), "num_segments": len(c["lens"])}
+    f = get_solve_discrete_problem(random_utility_shock_type=ShockType.NONE, variable_info=vi,
+                                   is_last_period=bool(c.get("is_last", False)), choice_segments=seg)
+    cc = jnp.asarray(np.array([_fr(x) for x in c["cc"]], dtype=np.float32).reshape(tuple(c["shape"])))
+    res = jax.jit(lambda x: f(x, params={}))(cc) if c.get("mode") == "jit" else f(cc, params={})
+    out = dict(c)
+    out["obs"] = {"shape": [int(x) for x in res.shape], "out": [MDL.enc(x) for x in np.asarray(res).ravel()]}
+    return out
+
+
+RUNNERS = {"scs": run_scs, "scs-mdl": run_scs_mdl, "argmax": run_argmax, "segargmax": run_segargmax, "reduce": run_reduce}
 
 
 def run_unit(c):
